@@ -38,6 +38,49 @@ ANY_OPTIONS = st.fixed_dictionaries({}, optional={
 })
 
 
+def _disc():
+    import typing
+    import utype
+
+    class DA(utype.Schema):
+        kind: typing.Literal["a"]
+        x: int = 0
+
+    class DB(utype.Schema):
+        kind: typing.Literal["b"]
+        y: int = 0
+
+    class DH(utype.Schema):
+        item: typing.Union[DA, DB] = utype.Field(discriminator="kind")
+    for c in (DA, DB, DH):
+        c.__module__ = "vf.dspec"
+    return DH
+
+
+def _rule(ann, **constraints):
+    from utype.parser.rule import Rule
+    return Rule.parse_annotation(ann, constraints=constraints or None)
+
+
+def _awkward():
+    import typing as t
+    from utype.parser.rule import Rule
+    return {
+        # legal annotations whose element / key type is not hashable, or whose constraint needs a conversion that can overflow
+        "set_of_lists": lambda: _rule(t.Set[t.List[int]]),
+        "frozenset_of_dicts": lambda: _rule(t.FrozenSet[t.Dict[str, int]]),
+        "dict_keyed_by_list": lambda: _rule(t.Dict[t.Tuple[int, ...], int]),
+        "set_of_sets": lambda: _rule(t.Set[t.Set[int]]),
+        "contains_int": lambda: Rule.annotate(list, constraints={"contains": int}),
+        "contains_float_max1": lambda: Rule.annotate(list, constraints={"contains": float, "max_contains": 1}),
+        "tuple_contains_decimal": lambda: Rule.annotate(tuple, constraints={"contains": __import__("decimal").Decimal, "min_contains": 1}),
+        "discriminated_union": _disc,
+    }
+
+
+AWKWARD = _awkward()
+
+
 def budget_for(vs):
     from ..core import jsize
     return 200_000 + 2_000 * jsize(vs)
@@ -50,15 +93,22 @@ def run_case(case):
         raise HarnessError("malformed case")
     if entry not in entries.ENTRIES:
         raise HarnessError("bad entry")
-    tspec.validate(spec)
+    if isinstance(spec, dict) and spec.get("k") == "awkward":
+        if spec.get("name") not in AWKWARD:
+            raise HarnessError("bad awkward declaration")
+    else:
+        tspec.validate(spec)
     try:
-        T = tspec.build(spec)
-        fn = entries.build_entry(entry, T, opts)
+        T = AWKWARD[spec["name"]]() if spec.get("k") == "awkward" else tspec.build(spec)
+        if spec.get("k") == "awkward" and spec["name"] == "discriminated_union" and entry == "call":
+            fn = T.__from__       # the data class itself, not a field holding one
+        else:
+            fn = entries.build_entry(entry, T, opts)
     except HarnessError:
         raise
     except decl_errors() as e:
         return {"status": "discarded"}
-    if entry in ("call", "transform"):
+    if entry in ("call", "transform") and spec.get("k") != "awkward":
         from utype.parser.rule import LogicalType
         if not isinstance(T, LogicalType):
             # the property speaks of constrained and logical types, data classes and decorated functions:
@@ -173,6 +223,23 @@ def campaign(ctx):
                 ctx.ev()
                 body({"type": spec, "value": {"t": "list", "v": [v]} if shape == "item" else v, "options": {}, "entry": ("schema", "param", "call", "return")[idx % 4]})
     ctx.extra["extreme_scalar_grid_exhaustive"] = True
+    # awkward but legal declarations x inputs aimed at them: enumerated completely
+    hostile_items = [{"t": "list", "v": [{"t": "tuple", "v": [1, 2]}]}, {"t": "list", "v": [{"t": "list", "v": [1]}, {"t": "list", "v": [1]}]}, {"t": "list", "v": [{"t": "dict", "v": [["a", 1]]}]},
+                     {"t": "list", "v": ["inf"]}, {"t": "list", "v": [F("inf"), 1]}, {"t": "list", "v": [D("NaN")]}, {"t": "list", "v": [gen._int_spec(10 ** 400)]}, {"t": "list", "v": ["1e400", "x"]},
+                     {"t": "dict", "v": [[{"t": "tuple", "v": [1]}, 2]]}, {"t": "dict", "v": [["[1]", 2]]}, {"t": "set", "v": [1]}, {"t": "list", "v": [{"t": "set", "v": [1]}]}, "[[1]]", {"t": "list", "v": []},
+                     {"t": "dict", "v": [["item", {"t": "dict", "v": [["kind", {"t": "list", "v": []}], ["x", 1]]}]]}, {"t": "dict", "v": [["item", {"t": "dict", "v": [["kind", {"t": "dict", "v": []}]]}]]},
+                     {"t": "dict", "v": [["item", {"t": "dict", "v": [["kind", "a"], ["x", "2"]]}]]}, {"t": "dict", "v": [["item", {"t": "dict", "v": [["kind", "zz"]]}]]}, {"t": "dict", "v": [["item", 5]]},
+                     {"t": "dict", "v": [["item", {"t": "dict", "v": [["kind", {"t": "obj"}]]}]]}, {"t": "dict", "v": [["item", {"t": "dict", "v": [["kind", F("nan")]]}]]}]
+    for name in AWKWARD:
+        for v in hostile_items:
+            if name == "discriminated_union" and not (isinstance(v, dict) and v.get("t") == "dict" and all(isinstance(k, str) for k, _ in v["v"])):
+                continue      # the data class is called directly: string-keyed mappings only (the property's domain)
+            for entry in (("call", "schema") if name == "discriminated_union" else ("call", "schema", "param", "return")):
+                idx += 1
+                if idx % ctx.nshards != ctx.shard:
+                    continue
+                ctx.ev()
+                body({"type": {"k": "awkward", "name": name}, "value": v, "options": {}, "entry": entry})
     fuzz_tier(ctx, run_case)
 
 
